@@ -21,3 +21,16 @@ func VerifNewAggregateWatcher(ws ...VerifClosableWatcher) VerifClosableWatcher {
 
 	return &aggregateWatcher{watchers: watchers}
 }
+
+// VerifResolveNow calls ResolveNow on the resolver Add built for the named target; false if there is no such target.
+func (r *ReflectionRouter) VerifResolveNow(name string) bool {
+	r.mu.Lock()
+	t, ok := r.targets[name]
+	r.mu.Unlock()
+
+	if ok {
+		t.resolver.ResolveNow()
+	}
+
+	return ok
+}
